@@ -20,13 +20,34 @@ CHECK_DEADLOCK FALSE
 CONFIGS = [("expanded", True), ("compressed", True), ("expanded", False), ("compressed", False)]
 
 
+def canon_value(text):
+    """a declaration value with numbers and colours in canonical spelling and strings compared by content: what must survive a
+    round trip is the value, not its spelling ('#ffffff' may come back as '#fff', "''" as '""')"""
+    toks = csstok.canon_stream("a{b:" + text + "}")
+    # strip the wrapper: ident a, {, ident b, colon ... }
+    k = next((i for i, t in enumerate(toks) if t[0] == "colon"), -1)
+    body = toks[k + 1:]
+    while body and body[-1][0] in ("}", "ws", "semi"):
+        body = body[:-1]
+    out = []
+    for cls, t in body:
+        if cls == "ws":
+            continue
+        if cls == "str" and len(t) >= 2 and t[0] == "'" and t[-1] == "'" and '"' not in t and "\\" not in t:
+            t = '"' + t[1:-1] + '"'
+        out.append(t)
+    return " ".join(out)
+
+
 def flat_of(css):
     out = []
     for ctx, sel, decls in cssread.flatten(cssread.parse(css)):
         if sel.startswith("@charset"):
             continue
+        if decls is not None and not decls:
+            continue          # a rule without declarations ('a{}' left by a dropped comment) carries nothing to reproduce
         out.append({"ctx": list(ctx), "sel": sel,
-                    "decls": [[d[0], " ".join(t[1] for t in csstok.tokenize(d[1]) if t[0] != "ws")] for d in decls] if decls is not None else []})
+                    "decls": [[d[0], canon_value(d[1])] for d in decls] if decls is not None else []})
     return out
 
 
@@ -63,7 +84,7 @@ def run(ctx):
                 "Trace_Css; non-trivial = distinct (input, configuration) that produced non-empty CSS")
     thorough = ctx.tier == "thorough"
     inputs = []
-    for mode, ms in (("strings", 3 if thorough else 2), ("placements", 1)):
+    for mode, ms in (("strings", 3 if thorough else 2), ("placements", 1), ("forms", 2)):
         r = C.tlc("MC_Sheet", cfg_text=SHEET_CFG % (ms, mode), workers=6, timeout=1200, metaname="sheet-" + mode)
         C.tlc_must_pass(r, "MC_Sheet/" + mode)
         ctx.add_tlc(r)
